@@ -47,6 +47,44 @@ fn apply_split_ratio_effect(cumulative_ratio_effect: &mut Decimal, tx: &GbpTrans
     }
 }
 
+/// Shares of `sell_tx`'s security that earlier disposals have already identified with purchases
+/// still to come (30-day rule), expressed in the units current on `sell_tx.date`.
+///
+/// Those shares have been sold: the Section 104 pool still contains them only because their
+/// cost will come from the later purchase, so they must not count as held.
+pub fn outstanding_bnb_claims(
+    sell_tx: &GbpTransaction,
+    all_transactions: &[GbpTransaction],
+    future_consumption: &HashMap<usize, Decimal>,
+) -> Decimal {
+    let mut claimed: Vec<(usize, Decimal)> = future_consumption
+        .iter()
+        .map(|(idx, qty)| (*idx, *qty))
+        .collect();
+    claimed.sort_by_key(|(idx, _)| *idx);
+
+    let mut total = Decimal::ZERO;
+    for (idx, qty_at_buy_time) in claimed {
+        let Some(buy_tx) = all_transactions.get(idx) else {
+            continue;
+        };
+        if buy_tx.ticker != sell_tx.ticker {
+            continue;
+        }
+        // Splits dated from the disposal date up to (not including) the purchase date lie between.
+        let mut ratio = Decimal::ONE;
+        for tx in all_transactions.iter().filter(|tx| {
+            tx.ticker == sell_tx.ticker && tx.date >= sell_tx.date && tx.date < buy_tx.date
+        }) {
+            apply_split_ratio_effect(&mut ratio, tx);
+        }
+        if ratio != Decimal::ZERO {
+            total += qty_at_buy_time / ratio;
+        }
+    }
+    total
+}
+
 fn available_for_bnb_after_reservations(
     idx: usize,
     tx: &GbpTransaction,
